@@ -631,7 +631,9 @@ class Fn:
                 else:
                     e = E('proj', a=e, op='deref', info={'raw': x.get('raw', False)})
             elif k == 'index':
-                e = E('proj', a=e, b=self.local_expr(x['l'], [], depth + 1, stack), op='index')
+                # the index is a value of its own: cycles through it are cut by the depth bound, not by the chain of
+                # locals being resolved for the base place
+                e = E('proj', a=e, b=self.local_expr(x['l'], [], depth + 8, frozenset()), op='index')
             elif k == 'downcast':
                 e = E('proj', a=e, op='downcast', info={'n': x.get('n', ''), 'v': x.get('v')})
             else:
